@@ -77,14 +77,14 @@ PREFIX = "no_"
 
 def _subst(e, env):
     """Copy of expression *e* with local names replaced by their symbolic values."""
-    import copy as _copy
+    from ..inline import _clone
 
     class S(ast.NodeTransformer):
         def visit_Name(self, n):
             if isinstance(n.ctx, ast.Load) and n.id in env:
-                return _copy.deepcopy(env[n.id])
+                return _clone(env[n.id])
             return n
-    return S().visit(_copy.deepcopy(e))
+    return S().visit(_clone(e))
 
 
 def _assign_env(st, env):
